@@ -204,6 +204,7 @@ class PDict(V):
         super().__init__()
         self.pairs = pairs if pairs is not None else []
         self.shared = False
+        self.sym = []  # Rep([PTuple(key, value)], "bykey(<list>)") entries stored by a symbolic loop
 
     def get(self, key_pred):
         for k, v in self.pairs:
